@@ -1612,3 +1612,35 @@ Lemma nonzero_base_refuted :
   exists data offs, poly_splice 22 10 12 6 7 ngon3 ngon_off [21;22;23;24;25;26] [5;8;11] = Some (Some (data, offs)) /\
                     nthZ offs 0 0 <> 0 /\ nthZ offs 7 0 <> lenZ data.
 Proof. eexists. eexists. split; [vm_compute; reflexivity|]. split; vm_compute; discriminate. Qed.
+
+(* ---- 10. state level: what a represented section's nodes say; write followed by read ------------------------------- *)
+Lemma rep_poly_represents st f E slack :
+  rep_poly st f E slack ->
+  represents (firstn (Z.to_nat (clen E)) (s_conn st)) (s_off st) E /\
+  s_r1 st - s_r0 st + 1 = lenZ E /\ lenZ (s_conn st) = s_dim st /\ clen E <= s_dim st /\
+  (slack = [] -> s_conn st = concat E /\ s_dim st = clen E).
+Proof.
+  intros R. rewrite (rq_conn _ _ _ _ R), (rq_off _ _ _ _ R), (rq_r0 _ _ _ _ R), (rq_r1 _ _ _ _ R), (rq_dim _ _ _ _ R).
+  pose proof (lenZ_nonneg slack).
+  replace (Z.to_nat (clen E)) with (length (concat E)) by (unfold clen, lenZ; lia). rewrite firstn_app_len.
+  split; [apply represents_canonical, R|]. split; [lia|]. split; [lens2; lia|]. split; [lia|].
+  intros ->. rewrite app_nil_r, lenZ_nil. split; [reflexivity|lia].
+Qed.
+
+Corollary poly_write_then_read pv st f E slack start N mt a b :
+  rep_poly st f E slack -> s_par st = None -> N <> [] -> nonempty_all N ->
+  Z.min f start <= a -> a <= b -> b <= Z.max (f + lenZ E - 1) (start + lenZ N - 1) ->
+  exists st' st'',
+    poly_elements_general_write pv st start (start + lenZ N - 1) mt (concat N) (offs_from 0 N) = ROk st' /\
+    let S := slice_elems (Z.min f start) (splice (ph_of (s_type st)) f E start N) a b in
+    poly_elements_partial_read st' a b false = ROk (st'', [concat S; offs_from 0 S]) /\
+    poly_elements_general_read st' a b mt = ROk (st', [concat S; offs_from 0 S]).
+Proof.
+  intros R Hpar HN AN Ha Hab Hb.
+  destruct (poly_write_is_splice pv st f E slack start N mt R Hpar HN AN) as (st' & sl & W & R' & _).
+  assert (HB : b <= Z.min f start + lenZ (splice (ph_of (s_type st)) f E start N) - 1).
+  { rewrite splice_lenZ by (auto; apply R). unfold splice_hi, splice_lo. lia. }
+  destruct (poly_partial_read_is_slice st' _ _ sl a b R' Ha Hab HB) as (st'' & RD & _).
+  exists st', st''. split; [exact W|]. split; [exact RD|].
+  now apply (poly_general_read_is_slice st' _ _ sl).
+Qed.
